@@ -16,9 +16,11 @@
 //!    existed, a fault, a panic, an inconsistent reader) fails.  After a clean sync/finish the
 //!    reopened state must equal the shadow exactly.
 //!
-//! M+S cells (image evaluated by the Coq model too): MmapVec<u8|u16|u32|u64> open/read, ZReorderMap
-//! open/iterate and builder output.  S-only cells: PlainBlobStore, ZipOffsetBlobStore,
-//! SuffixArrayDictionary, MemoryMappedOutput->MemoryMappedInput.
+//! M+S cells (evaluated by the Coq model too, see coq/C19/ModelCases.v): MmapVec<u8|u16|u32|u64> open/read and the
+//! state (len, capacity, file length) after every operation; ZReorderMap open/iterate, builder output and its write
+//! sequence; ZipOffsetBlobStore image, save operations and loader (final, cut and bit-flipped images);
+//! PlainBlobStore whole-history file operations; MemoryMappedOutput position/capacity/file.
+//! S-only cell: SuffixArrayDictionary (bincode image; only its write protocol is compared).
 use crate::util::*;
 use serde_json::{json, Value};
 use std::collections::{BTreeMap, HashMap};
@@ -1117,7 +1119,7 @@ fn reorder_case(cx: &mut Ctx, builds: &[Value], exhaustive: bool) {
         let bytes: usize = seg.iter().map(|o| if let Op::Write { data, .. } = o { data.len() } else { 0 }).sum();
         let big = bytes > 1300;
         let room = if big { cx.n_row_big < if cx.thorough { 40 } else { 9 } } else { cx.n_row - cx.n_row_big < if cx.thorough { 300 } else { 24 } };
-        if room && bytes <= 30000 && cx.coq_seen.insert(fnv64(cj.to_string().as_bytes(), 0x526f57)) {
+        if room && bytes + last.0.len() <= 36000 && cx.coq_seen.insert(fnv64(cj.to_string().as_bytes(), 0x526f57)) {
             cx.n_row += 1; if big { cx.n_row_big += 1; }
             cx.shards.push(format!("(XRoW {} {} [{}])", coq_n_list(last.0.iter().map(|&v| v as u128)), coq_bool(last.1), seg.iter().map(|o| fop_term(o, "m.bin")).collect::<Vec<_>>().join("; ")),
                            json!({"cell": "reorder_writes", "values": last.0, "neg": last.1}));
@@ -1278,14 +1280,24 @@ fn zipoffset_case(cx: &mut Ctx, recs: &[String], checksum: u8, exhaustive: bool)
                 }
                 // a longer file (bytes after the footer), and the content length field off by one
                 let mut g = f.clone(); g.extend_from_slice(&[7, 7, 7]); imgs.push(g);
-                let mut g = f.clone(); g[64] = g[64].wrapping_add(1); imgs.push(g);
+                // single header fields off by one / out of range: record count, content bytes, offsets bytes, version,
+                // log2 block units, checksum level, compress level, element count and widths of the offset vector
+                let o = 128 + cb + pad;
+                for (i, d) in [(56usize, 1i16), (56, -1), (64, 1), (64, -1), (72, 1), (72, -1), (62, 1), (80, -3), (80, 3), (81, 4), (82, 23), (o, 1), (o, -1), (o + 8, 1), (o + 9, -9), (o + 10, 40), (o + 16, 1), (o + 24, -1)] {
+                    if i < n { let mut g = f.clone(); g[i] = (g[i] as i16 + d) as u8; imgs.push(g); }
+                }
+                // a sample of them per file (the final image always), so that every file contributes
+                let first = imgs.remove(0);
+                for i in (1..imgs.len()).rev() { let j = r.below(i as u64 + 1) as usize; imgs.swap(i, j); }
+                imgs.truncate(if cx.thorough { 40 } else { 12 });
+                zo_coq_case(cx, &first);
                 for im in imgs { zo_coq_case(cx, &im); }
             }
         }
     }
 }
 fn zo_coq_case(cx: &mut Ctx, img: &[u8]) {
-    if img.len() > 1600 || cx.n_zo >= if cx.thorough { 1500 } else { 190 } { return; }
+    if img.len() > 1600 || cx.n_zo >= if cx.thorough { 2500 } else { 260 } { return; }
     if !cx.coq_seen.insert(fnv64(img, 0x20)) { return; }
     let mut d = Disk::new(); d.insert("s.zob".into(), img.to_vec());
     let out = cx.observe("zipoffset_full", &json!({}), &d, "s.zob", false);
@@ -1471,7 +1483,7 @@ pub fn run(args: &Args) {
     let srv = Server::start(&root);   // started before any writer runs: a process that never saw the written structures
     tracer_self_test(&root);
     let mut cx = Ctx {
-        sum: Summary::new("C19", "histories of real write operations (MmapVec push/pop/set/truncate/clear/reserve/shrink/resize/extend/bulk/sync/reopen at capacities around 0,1,block and growth factors 1.0..2.0; PlainBlobStore put/remove/reopen with records of 0..9000 bytes; ZReorderMap builds incl. overwriting an older map, runs of 1,2,127..129 and 40-bit values; ZipOffsetBlobStore, SuffixArrayDictionary, MemoryMappedOutput files) with the file operations traced; every crash image (each operation prefix, last write torn at boundary-biased or all byte positions, one unsynced write dropped, one 4 KiB block rolled back) and every truncation of the finished files is reopened and read completely in a separate process; non-trivial = history of >= 3 operations / map of >= 2 values / any write-once file"),
+        sum: Summary::new("C19", "histories of real write operations (MmapVec push/pop/set/truncate/clear/reserve/shrink/resize/extend/bulk/copy_from_simd/sync/reopen at capacities around 0,1,block and growth factors 1.0..2.0, destinations that are not full copied from 1x..10x their capacity; PlainBlobStore put/remove/reopen with records of 0..9000 bytes, also over leftover temporary files; ZReorderMap builds incl. overwriting an older map, runs of 1,2,127..129, 40-bit values, many short runs crossing the 4096-byte write buffer once, twice and several times; ZipOffsetBlobStore with content lengths around the 16-byte padding and more than one offset block, SuffixArrayDictionary, MemoryMappedOutput files with seeks) with the file operations traced; every crash image (each operation prefix, last write torn at boundary-biased or all byte positions, one unsynced write dropped, one 4 KiB block rolled back) and every truncation of the finished files is reopened and read completely in a separate process; non-trivial = history of >= 3 operations / map of >= 2 values / any write-once file"),
         shards: CoqShards::new(HEADER, 150),
         budget: if args.thorough { 6000 } else { 1000 },
         srv, root: root.clone(), seq: 0, thorough: args.thorough, cache: HashMap::new(), images: 0, coq_seen: Default::default(), proto: 0, n_mv: 0, n_ro: 0,
